@@ -61,7 +61,7 @@ int main() {
     std::string cmd, sx0, smin, smax, scp;
     int im, ck, fid, ns;
     try {
-      if (!(is >> cmd >> sx0 >> im >> smin >> smax >> ck >> scp >> fid >> ns) || cmd != "run" ||
+      if (!(is >> cmd >> sx0 >> im >> smin >> smax >> ck >> scp >> fid >> ns) || (cmd != "run" && cmd != "run4") ||
           ns < 0 || ck < 0 || fid < 0) {
         std::cout << "bad-op\n";
         continue;
@@ -117,7 +117,10 @@ int main() {
       p.im = im;
       p.xmin0 = from_bits(smin);
       p.xmax0 = from_bits(smax);
-      const auto r = tfel::math::scalarNewtonRaphson(f, c, p);
+      // `run4`: the overload taking the initial guess and the iteration budget (no bracket: the bounds of the
+      // request are NaN, the default of ScalarNewtonRaphsonParameters)
+      const auto r = (cmd == "run4") ? tfel::math::scalarNewtonRaphson(f, c, p.x0, p.im)
+                                     : tfel::math::scalarNewtonRaphson(f, c, p);
       std::cout << (std::get<0>(r) ? 1 : 0) << " " << bits(std::get<1>(r)) << " " << std::get<2>(r)
                 << " n " << args.size();
       for (const auto a : args) std::cout << " " << bits(a);
